@@ -1,5 +1,6 @@
 """C11 — Condvar loses no notification; Barrier / WaitGroup release exactly when due (structural clauses)."""
 from lib import *
+from props import shared
 from props.shared import *
 
 EXPLANATION = ("R-ORDER enqueue-then-unlock-then-park in Condvar::wait_impl, R-PAIR the mutex is re-acquired on every path from park "
@@ -170,3 +171,4 @@ def check(ctx):
     condvar_frontend_rules(ctx)
     wait_group_rules(ctx)
     ctx.import_rules("C10", r"^no-panicking-instant-arithmetic$")
+    shared.drops_do_not_block_unmasked(ctx)
